@@ -131,7 +131,11 @@ econf_err getDoubleValueNum(econf_file key_file, size_t num, double *result) {
     return ECONF_KEY_HAS_NULL_VALUE;
   errno = 0;
   *result = strtod(key_file.file_entry[num].value, &endptr);
-  if (endptr == key_file.file_entry[num].value || errno == ERANGE || (errno != 0 && *result == 0))
+  /* ERANGE is also set for subnormal results, which are exact or correctly
+     rounded. Only an overflow cannot be represented. */
+  if (endptr == key_file.file_entry[num].value ||
+      (errno == ERANGE && (*result == HUGE_VAL || *result == -HUGE_VAL)) ||
+      (errno != 0 && errno != ERANGE && *result == 0))
     return ECONF_VALUE_CONVERSION_ERROR;
   return ECONF_SUCCESS;
 }
